@@ -8,6 +8,9 @@ weights and positions come from one and the same packer over the factors'
 weights / positions; every call from discrete.py into measures.py binds
 positions to ``samples`` and weights to ``weights``; the measure properties pair
 each statistic with its own impose_* setter.
+Round 3: the statistics the measures delegate to (expectation, _expected_moment,
+expected_variance, support, support_index) keep their explicit-sum references
+(shared with C18.f).
 NOT decided: round-trip equality of values, Cartesian order of _pack, update
 on ragged input.
 """
